@@ -15,6 +15,7 @@ import (
 	"crypto/sha256"
 	"encoding/hex"
 	"fmt"
+	"github.com/hashicorp/hcl/v2/hclparse"
 	"os"
 	"os/exec"
 	"sort"
@@ -301,6 +302,68 @@ func runC20(e *Env) error {
 		sort.Strings(sb)
 		if strings.Join(sa, "\n") != strings.Join(sb, "\n") {
 			e.Res.Violate("failing-input", "declaration-order-changes-statements", fmt.Sprintf("seed %d: permuting the HCL blocks changes the statements (not only their order): %s", s, firstDiff(strings.Join(sa, "\n"), strings.Join(sb, "\n"))), "Props.C20 plan_decl_order", map[string]any{"seed": s})
+		}
+	}
+	// the same schema split over several HCL files (names sharing a numeric prefix, differing only in
+	// zero padding, in sub-directories): evaluating the same files again and again gives the same realm
+	for _, s := range seeds {
+		sc, _ := c20Schema(s, "sqlite")
+		hcl, err := sqlite.MarshalHCL(sc)
+		if err != nil {
+			continue
+		}
+		blocks := splitHCLBlocks(string(hcl))
+		if len(blocks) < 3 {
+			continue
+		}
+		pr := hx.NewRand(s, "files")
+		names := []string{"1_tables.hcl", "1_lookup.hcl", "01_a.hcl", "1_b.hcl", "a/1.hcl", "b/1.hcl", "2_more.hcl", "schema.hcl", "10_x.hcl", "9_y.hcl"}
+		hx.Shuffle(pr, names)
+		k := 2 + pr.Intn(3)
+		if k > len(blocks) {
+			k = len(blocks)
+		}
+		files := map[string]string{}
+		for i, b := range blocks {
+			files[names[i%k]] += b + "\n"
+		}
+		evalOnce := func() (string, error) {
+			p := hclparse.NewParser()
+			for n, body := range files {
+				if _, diag := p.ParseHCL([]byte(body), n); diag.HasErrors() {
+					return "", fmt.Errorf("%s", diag.Error())
+				}
+			}
+			var rl schema.Realm
+			if err := sqlite.EvalHCL.Eval(p, &rl, nil); err != nil {
+				return "", err
+			}
+			var b strings.Builder
+			for _, sch := range rl.Schemas {
+				out, err := sqlite.MarshalHCL(sch)
+				if err != nil {
+					return "", err
+				}
+				b.Write(out)
+			}
+			return b.String(), nil
+		}
+		first, err := evalOnce()
+		e.Res.Count(fmt.Sprintf("hclfiles:%d", s), err == nil, "hcl-multi-file")
+		if err != nil {
+			continue
+		}
+		for rep := 0; rep < 60; rep++ {
+			again, err := evalOnce()
+			if err != nil || again != first {
+				var ns []string
+				for n := range files {
+					ns = append(ns, n)
+				}
+				sort.Strings(ns)
+				e.Res.Violate("failing-input", "multi-file-evaluation-not-deterministic", fmt.Sprintf("seed %d: evaluating the HCL files %v again (repetition %d) gives another result (err=%v): %s", s, ns, rep, err, firstDiff(first, again)), "Props.C20 deterministic", map[string]any{"seed": s, "files": files})
+				break
+			}
 		}
 	}
 	// permuted directory listings: implementation and model give the same sum file for every order
